@@ -498,6 +498,106 @@ walk:
 	return status
 }
 
+// ---------------------------------------------------------------- coal-witness
+//
+// The schedule of Coalescer.tla's counterexample for Defects={LateSubmit}: a submit has passed its done check
+// and is about to send when Close begins.  The repaired code makes Close wait for it (inflight lock) before the
+// writer is told to stop; if Close is NOT held back, the schedule goes on as in the counterexample (the writer does
+// its final drain and leaves, then the send succeeds) and the monitor sees an accepted message without a fate.
+func coalWitnessMain(args []string) {
+	if len(args) != 2 {
+		fatal("usage: remoting coal-witness <rounds> <trace>")
+	}
+	rounds, _ := strconv.Atoi(args[0])
+	w, err := vtrace.Create(args[1])
+	if err != nil {
+		fatal(err)
+	}
+	tr := tracer{w}
+	srv := startTellServer(remoteclient.NewClient().Serializer(nil))
+	srv.tr.Store(&tr)
+	held, through, broken := 0, 0, 0
+	for r := 0; r < rounds; r++ {
+		tr.put(line{Op: "New", B: 1})
+		s := sched.New()
+		s.Watchdog = 8 * time.Second
+		s.ControlAll()
+		s.AdoptAt("coal.run.select", "w")
+		s.DetachAt("coal.run.exit")
+		rg := newRig(srv, tr, 1, []string{"p1"})
+		srv.mode.Store(modeOK)
+		vc, ok := remoteclient.VerifCoalescerFor(rg.cl, srv.host, srv.port)
+		if !ok {
+			fatal("no coalescer")
+		}
+		wname, ok := s.WaitAdopted(30 * time.Second)
+		if !ok {
+			fatal("writer goroutine was not adopted")
+		}
+		s.Go("p1", func() {
+			s.Yield("call", 0, 0)
+			rg.tell(context.Background(), "p1", 1001)
+		})
+		s.Go("x", func() {
+			s.Yield("call", 0, 0)
+			tr.put(line{Op: "xclose"})
+			rg.cl.Close()
+		})
+		at := func(t, point string) bool {
+			p, parked := s.Pending(t)
+			return parked && !p.Done && p.Point == point
+		}
+		okSoFar := true
+		step := func(t, from string) {
+			if okSoFar && at(t, from) {
+				if _, err := s.Step(t); err != nil {
+					okSoFar = false
+				}
+			} else {
+				okSoFar = false
+			}
+		}
+		step("p1", "call")              // RemoteTell up to submit
+		step("p1", "coal.submit.enter") // takes the in-flight lock
+		step("p1", "coal.submit.check") // done is still open
+		step("x", "call")               // close(done)
+		if okSoFar && at("p1", "coal.submit.fast") && at("x", "coal.close.lock") {
+			_ = s.Release("x") // asks for the exclusive lock: must wait for p1
+			if _, parked := s.TryAwait("x", 300*time.Millisecond); parked {
+				// Close was not held back: carry on exactly as in the counterexample
+				through++
+				step(wname, "coal.run.select") // stop is closed, the channel is empty
+				step(wname, "coal.run.drain")  // final drain finds nothing: the writer leaves
+				step("p1", "coal.submit.fast") // the send succeeds behind the writer's back
+				step("x", "coal.close.wait")
+			} else {
+				held++
+				step("p1", "coal.submit.fast") // send, return, release the lock: Close can go on
+				_, _ = s.Await("x")
+			}
+		} else {
+			broken++ // the code is not shaped as the schedule expects (hooks moved?): nothing to witness
+		}
+		tr.put(line{Op: "Free"})
+		s.FreeRun()
+		if !s.Join(10 * time.Second) {
+			tr.put(line{Op: "Stuck"})
+			s.Close()
+			continue
+		}
+		rg.cl.Close()
+		tr.put(line{Op: "End", Q: vc.Queued()})
+		s.Close()
+	}
+	tr.put(line{Op: "New"})
+	_ = srv.ps.Shutdown(2 * time.Second)
+	n := w.Count()
+	if err := w.Close(); err != nil {
+		fatal(err)
+	}
+	fmt.Printf("{\"rounds\":%d,\"close_held_back\":%d,\"close_went_through\":%d,\"unexpected_shape\":%d,\"events\":%d}\n", rounds, held, through, broken, n)
+}
+
 func coalReplayMain(args []string) {
 	if len(args) != 4 {
 		fatal("usage: remoting coal-replay <behaviours> <trace> <maxBatch> <retries>")
